@@ -74,8 +74,9 @@ theorem reconcile_life_sane (s : St) (impl : List ImplDl) (h : Life s) (hd : Dls
 
 theorem reconcile_winv_sane (s : St) (impl : List ImplDl) (h : WInv s) (hd : DlsSane s impl) :
     WInv (reconcile s impl).1 := by
-  refine ⟨by simpa using h.cfgOK, ?_, by simpa using h.wf, by simpa using h.wb, by simpa using h.wg,
-    by simpa using h.wc, by simpa using h.bd, ?_, ?_, by simpa using h.al, by simpa using h.id⟩
+  refine ⟨?_, by simpa using h.wf, by simpa using h.wg,
+    by simpa using h.wc, by simpa [St.n] using h.wl, by simpa using h.wd, by simpa using h.bd, ?_, ?_,
+    by simpa using h.al, by simpa using h.id⟩
   · -- peers: only `snubbed` is reset
     intro p hp msg hm
     unfold reconcile at hp
@@ -101,9 +102,9 @@ theorem reconcile_winv_sane (s : St) (impl : List ImplDl) (h : WInv s) (hd : Dls
 
 theorem reconcileIdl_winv_sane (s : St) (implI : List Nat) (h : WInv s) (hi : IdlsSane s implI) :
     WInv (reconcileIdl s implI).1 := by
-  refine ⟨by simpa using h.cfgOK, h.q.of_peers (by simp), by simpa using h.wf, by simpa using h.wb,
-    by simpa using h.wg, by simpa using h.wc, by simpa using h.bd, by simpa using h.dd, by simpa using h.dl,
-    by simpa using h.al, ?_⟩
+  refine ⟨h.q.of_peers (by simp), by simpa using h.wf,
+    by simpa using h.wg, by simpa using h.wc, by simpa [St.n] using h.wl, by simpa using h.wd, by simpa using h.bd,
+    by simpa using h.dd, by simpa using h.dl, by simpa using h.al, ?_⟩
   intro hi'
   exact hi (by simpa using hi')
 
